@@ -98,6 +98,37 @@ func worldWorkConn(w *World) {
 			return
 		}
 	}
+	// a neighbour's registration that is refused half-way (its second host is this proxy's) leaves nothing behind that
+	// accepts users: a user who names the neighbour's first host is turned away, not let in and left without a peer
+	if path == 2 && w.KnobBool("refused_two_host_neighbour", 50) {
+		w.Probe("workconn.refused_two_host_neighbour")
+		nb := env.newClient("nb", 0)
+		if rr, err := nb.login(""); err == nil && mstr(rr, "error") == "" {
+			nf := M{"proxy_name": "ghost", "proxy_type": "tcpmux", "multiplexer": "httpconnect", "custom_domains": []string{"ghost.example.test", "wc.example.test"}}
+			if pathName == 4 {
+				nf["group"], nf["group_key"] = "ghostg", "k"
+			}
+			if rr, got := nb.register(nf); got && mstr(rr, "error") != "" {
+				for i := 0; i < 2; i++ {
+					w.Check("C11.no-user-accepted-without-peer")
+					uc, err := simnet.DialFrom(fmt.Sprintf("10.0.3.%d", 240+i), "10.0.0.1:7005", 5*time.Second)
+					if err != nil {
+						continue
+					}
+					fmt.Fprintf(uc, "CONNECT ghost.example.test:443 HTTP/1.1\r\nHost: ghost.example.test:443\r\n\r\n")
+					uc.SetReadDeadline(time.Now().Add(time.Duration(uct)*time.Second + 4*time.Second))
+					line, err := bufio.NewReader(uc).ReadString('\n')
+					if strings.Contains(line, " 200 ") {
+						viol("orphan", "user-accepted-for-refused-proxy", "a tcpmux registration [ghost.example.test, wc.example.test] was refused (second host taken); a user naming ghost.example.test was answered %q although no proxy serves that host", strings.TrimSpace(line))
+					} else if ne, ok := err.(net.Error); ok && ne.Timeout() {
+						viol("orphan", "user-left-open-for-refused-proxy", "a tcpmux registration [ghost.example.test, wc.example.test] was refused; a user naming ghost.example.test was neither answered nor closed within userConnTimeout+4 s")
+					}
+					uc.Close()
+				}
+			}
+			nb.Drop()
+		}
+	}
 	c.smu.Lock()
 	c.WorkMode = mode
 	c.smu.Unlock()
